@@ -55,8 +55,8 @@ type vMeta struct {
 	Expect    string `json:"expect"` // "reject" | "essence" | "model"
 	Res       string `json:"res"`    // observed, as a Coq term
 	Err       string `json:"err"`
-	Essence   string `json:"essence"`
-	EssenceNT string `json:"essence_nt"`
+	PartsD    []string          `json:"parts_d"` // digest of the signed content of main part and justifications
+	Wins      map[string]string `json:"wins"`    // referenced hash -> "type|digest of the decoded inner message" of the value that wins in the map
 	Same      bool   `json:"same"` // proto.Equal to the base
 	MsgType   int64  `json:"msg_type"`
 	NJust     int    `json:"njust"`
@@ -353,13 +353,17 @@ func (h *vH) wireTerm(req proto.Message) string {
 	return fmt.Sprintf("(Some (W %s [%s] [%s]))", h.partTerm(m.GetMsg()), strings.Join(js, "; "), strings.Join(vs, "; "))
 }
 
-// vEssence digests what an accepted message makes the instance act on: the signed contents of its
-// parts and, for every referenced hash, the (type URL, decoded inner message) that wins in the
-// values map. The second result leaves the type URLs out.
-func vEssence(req proto.Message) (string, string) {
+// vEssence describes what an accepted message makes the instance act on: the signed content of
+// each of its parts (digests) and, for every referenced hash, the (resolved proto type, decoded
+// inner message) of the value that wins in the values map.
+func vEssence(req proto.Message) ([]string, map[string]string) {
 	m, ok := req.(*pbv1.QBFTConsensusMsg)
 	if !ok || m == nil {
-		return "nil", "nil"
+		return nil, nil
+	}
+	dig := func(b []byte) string {
+		x := sha256.Sum256(b)
+		return hex.EncodeToString(x[:8])
 	}
 	sigless := func(p *pbv1.QBFTMsg) string {
 		if p == nil {
@@ -367,54 +371,41 @@ func vEssence(req proto.Message) (string, string) {
 		}
 		c, _ := proto.Clone(p).(*pbv1.QBFTMsg)
 		c.Signature = nil
-		return hex.EncodeToString(vDet(c))
+		return dig(vDet(c))
 	}
-	var parts []string
+	parts := []string{sigless(m.GetMsg())}
 	for _, j := range m.GetJustification() {
 		parts = append(parts, sigless(j))
 	}
-	sort.Strings(parts)
-	parts = append([]string{sigless(m.GetMsg())}, parts...)
-	type win struct{ tu, canon string }
-	wins := map[string]win{}
+	all := map[string]string{}
 	for _, v := range m.GetValues() {
 		if v == nil {
-			return "err", "err"
+			return parts, nil
 		}
 		inner, err := v.UnmarshalNew()
 		if err != nil {
-			return "err", "err"
+			return parts, nil
 		}
 		if _, isAny := inner.(*anypb.Any); isAny {
-			return "err", "err"
+			return parts, nil
 		}
 		canon := vDet(inner)
 		root := vSszRoot(canon)
-		wins[string(root[:])] = win{tu: string(inner.ProtoReflect().Descriptor().FullName()), canon: hex.EncodeToString(canon)}
+		all[string(root[:])] = string(inner.ProtoReflect().Descriptor().FullName()) + "|" + dig(canon)
 	}
-	refs := map[string]bool{}
+	wins := map[string]string{}
 	addRef := func(b []byte) {
 		if len(b) == 32 && string(b) != string(make([]byte, 32)) {
-			refs[string(b)] = true
+			if w, ok := all[string(b)]; ok {
+				wins[hex.EncodeToString(b[:8])] = w
+			}
 		}
 	}
 	for _, p := range append([]*pbv1.QBFTMsg{m.GetMsg()}, m.GetJustification()...) {
 		addRef(p.GetValueHash())
 		addRef(p.GetPreparedValueHash())
 	}
-	var keys []string
-	for k := range refs {
-		keys = append(keys, k)
-	}
-	sort.Strings(keys)
-	full, nt := strings.Join(parts, "|"), strings.Join(parts, "|")
-	for _, k := range keys {
-		w := wins[k]
-		full += fmt.Sprintf("#%x=%s:%s", k, w.tu, w.canon)
-		nt += fmt.Sprintf("#%x=%s", k, w.canon)
-	}
-	a, b := sha256.Sum256([]byte(full)), sha256.Sum256([]byte(nt))
-	return hex.EncodeToString(a[:8]), hex.EncodeToString(b[:8])
+	return parts, wins
 }
 
 // ---------------------------------------------------------------------------------------------
@@ -710,7 +701,7 @@ func (w *vWorld) call(e vEnv, req proto.Message, cs vCase) (int, bool) {
 			meta.Err = meta.Err[:160]
 		}
 	}
-	meta.Essence, meta.EssenceNT = vEssence(reqC)
+	meta.PartsD, meta.Wins = vEssence(reqC)
 	if cs.orig != nil && reqC != nil {
 		meta.Same = proto.Equal(cs.orig, reqC)
 	}
